@@ -113,6 +113,18 @@ func runRaceProgram(rc RaceCase, dir string) {
 				case "set":
 					b := model.Bytes(model.Val{Len: op.Len, Seed: uint32(gi*1000 + i)})
 					_ = w.doWrite(s, key, b, op)
+				case "bigtx":
+					// more than a thousand versions become garbage in one call (the cleaner works in batches of 1000)
+					if t, err := w.DB.Begin(ctx); err == nil {
+						for j := 0; j < op.N; j++ {
+							_ = t.Set(ctx, key, []byte{byte(j)})
+						}
+						if op.Len%2 == 0 {
+							_ = t.Rollback(ctx)
+						} else {
+							_ = t.Commit(ctx)
+						}
+					}
 				case "del":
 					_ = s.Delete(ctx, key)
 				case "get":
